@@ -190,12 +190,9 @@ class V3(object):
             return enc_value(self.spec("impact_enc"))
         if n == "esc":
             return lift(frac_to_di(SCALE["esc"], "?"), self.spec("expl"))
-        if n == "base_score":
-            return lift(frac_to_di(1), self.spec("base"))
-        if n == "temporal_score":
-            return lift(frac_to_di(1), self.spec("temporal"))
-        if n == "environmental_score":
-            return lift(frac_to_di(1), self.spec("env"))
+        if n in ("base_score", "temporal_score", "environmental_score"):
+            sname = {"base_score": "base", "temporal_score": "temporal", "environmental_score": "env"}[n]
+            return score_repr(self.ctx, self.spec(sname), n)
         if n == "modified_isc_base":
             return lift(frac_to_di(SCALE["modified_isc_base"], "?"), self.spec("miss"))
         if n == "modified_isc":
@@ -203,6 +200,34 @@ class V3(object):
         if n == "modified_esc":
             return lift(frac_to_di(SCALE["modified_esc"], "?"), self.spec("mexpl"))
         raise KeyError(n)
+
+
+def score_repr(ctx, spec, tag):
+    """
+    every Decimal the invariant admits for a score field: the value with one decimal place and,
+    for whole numbers, also with none (the invariant only promises scale <= 1); a free
+    representation variable makes accessors work for both
+    """
+    from pyvc import fd
+    import itertools as _it
+
+    rep = fd.var("rep.%s.%d" % (tag, next(_REP)), [1, 0])
+
+    def conv(x, r):
+        if x is None:
+            return None
+        x = F(x)
+        if r == 0 and x.denominator == 1:
+            return DI(x, x, scale=0)
+        return DI(x, x, scale=1)
+
+    return lift(conv, spec, rep)
+
+
+import itertools as _it0  # noqa: E402
+
+_REP = _it0.count()
+from pyvc.sym import DI  # noqa: E402
 
 
 FIELD_SPEC = {
